@@ -31,9 +31,13 @@ def call(case, api='func'):
 
 
 def in_domain(case):
+    others = []
+    bk = case.get('burst_kwargs')
+    if case.get('burst_method') == 'amp':
+        others.append((bk or {}).get('filter_kwargs') or {'n_cycles': 3})
     with quiet():
         ok, p, t, info = monitors.cycles_domain(case['sig'], case['fs'], tuple(case['f_range']),
-                                                case.get('center_extrema', 'peak'), case.get('find_extrema_kwargs'))
+                                                case.get('center_extrema', 'peak'), case.get('find_extrema_kwargs'), others)
     return ok, info
 
 
@@ -62,9 +66,9 @@ def run_case(sh, case, prop, api='func', driver='generated', nontrivial=None, to
             if prop == 'C01':
                 vs.append({'mechanism': attach.exc_mechanism(exc),
                            'message': '%s raised %r inside the domain (band-passed signal has %s closed half-waves, '
-                                      'filter length %s, signal length %d)'
+                                      'longest filter %s, signal length %d)'
                                       % ('compute_features' if api == 'func' else 'Bycycle.fit', exc,
-                                         info.get('n_before_trim'), info.get('filt_len'), len(case['sig']))})
+                                         info.get('n_before_trim'), info.get('longest_filter'), len(case['sig']))})
             else:
                 # a property that promises a value is violated when its own anchored code raises instead
                 frame = attach.innermost_repo_frame(exc.__traceback__)
